@@ -45,7 +45,8 @@ def run(tier, seed):
     vlib.write_ndjson(bpath, beh)
     tpath = os.path.join(wd, "trace.ndjson")
     summ = vlib.harness(["c18", "--behaviours", bpath, "--out", tpath, "--bulk", 300 if quick else 1500, "--seed", seed,
-                                 "--random-runs", 10 if quick else 100, "--random-steps", 12000], timeout=2400)
+                                 "--random-runs", 10 if quick else 100, "--random-steps", 12000,
+                                 "--big-runs", 22 if quick else 330, "--big-steps", 2500 if quick else 6000], timeout=2400)
     states, n_runs, rej = vlib.validate_runs("C18", "BtpTrace.tla", "BtpTrace.cfg", tpath)
     for r in rej:
         ck.violation(signature(r), "real BTP ends: event %s (no. %d of its run) is not allowed by Layer P" % (json.dumps(r["event"]), r["at"]),
